@@ -35,12 +35,23 @@ fn mutate(rng: &mut jxlgen::rng::Rng, b: &mut Vec<u8>) {
 }
 
 /// Run one image under the tracker; returns (outcome class, number of Ok renders)
-fn run_image(rng: &mut jxlgen::rng::Rng, bytes: &[u8], tracker: &AllocTracker, pool: Pool) -> (String, u32) {
+fn run_image(rng: &mut jxlgen::rng::Rng, bytes: &[u8], tracker: &AllocTracker, pool: Pool, swallowed: &mut Option<String>, tolerated: &mut u64) -> (String, u32) {
+    let mut cur_region: Option<CropInfo> = None;
+    // Refusal monitor (hook H1 counts refused allocations): without a thread pool everything a call
+    // allocates is allocated inside that call, so a call during which an allocation was refused must
+    // return the error.
+    let single = pool == Pool::None;
+    let r0 = tracker.verif_refused();
     let image = JxlImage::builder().pool(make_pool(pool)).alloc_tracker(tracker.clone()).read(std::io::Cursor::new(bytes));
     let mut image = match image {
         Ok(i) => i,
         Err(_) => return ("read-err".into(), 0),
     };
+    if single && tracker.verif_refused() != r0 {
+        // read() keeps what it could load (a frame it could not buffer stays unloaded): counted, the
+        // renders below are what is judged
+        *tolerated += 1;
+    }
     let mut ok = 0;
     let mut err = 0;
     let nk = image.num_loaded_keyframes();
@@ -50,8 +61,33 @@ fn run_image(rng: &mut jxlgen::rng::Rng, bytes: &[u8], tracker: &AllocTracker, p
             0 | 1 | 2 => {
                 if nk > 0 {
                     let k = rng.below(nk as u64) as usize;
+                    let r0 = tracker.verif_refused();
                     match image.render_frame(k) {
                         Ok(r) => {
+                            if single && tracker.verif_refused() != r0 && swallowed.is_none() {
+                                // The call went on after a refusal. Falling back to a cheaper path is
+                                // legitimate; returning Ok with samples that lack what the refused
+                                // memory was for is not: compare with a decode without a limit.
+                                *tolerated += 1;
+                                let got: Vec<Vec<u32>> = r.image_planar().iter().map(|fb| fb.buf().iter().map(|v| v.to_bits()).collect()).collect();
+                                let reference = (|| -> Option<Vec<Vec<u32>>> {
+                                    let mut img = JxlImage::builder().pool(make_pool(Pool::None)).read(std::io::Cursor::new(bytes)).ok()?;
+                                    if let Some(c) = cur_region {
+                                        img.set_image_region(c);
+                                    }
+                                    let rr = img.render_frame(k).ok()?;
+                                    Some(rr.image_planar().iter().map(|fb| fb.buf().iter().map(|v| v.to_bits()).collect()).collect())
+                                })();
+                                match reference {
+                                    Some(want) if want != got => {
+                                        *swallowed = Some(format!(
+                                            "render_frame({k}) returned Ok although {} allocation(s) were refused during the call, and its samples differ from a decode without a limit (region {cur_region:?})",
+                                            tracker.verif_refused() - r0
+                                        ));
+                                    }
+                                    _ => {}
+                                }
+                            }
                             // touch the output paths too
                             if rng.bool() {
                                 let _ = r.image_all_channels();
@@ -66,7 +102,9 @@ fn run_image(rng: &mut jxlgen::rng::Rng, bytes: &[u8], tracker: &AllocTracker, p
                 let (w, h) = (image.width().max(1), image.height().max(1));
                 let l = rng.below(w as u64) as u32;
                 let t = rng.below(h as u64) as u32;
-                image.set_image_region(CropInfo { left: l, top: t, width: rng.u32range(1, w - l), height: rng.u32range(1, h - t) });
+                let c = CropInfo { left: l, top: t, width: rng.u32range(1, w - l), height: rng.u32range(1, h - t) };
+                cur_region = Some(c);
+                image.set_image_region(c);
             }
             _ => match image.render_loading_frame() {
                 Ok(_) => ok += 1,
@@ -78,9 +116,133 @@ fn run_image(rng: &mut jxlgen::rng::Rng, bytes: &[u8], tracker: &AllocTracker, p
     (format!("ok{}err{}", ok.min(1), err.min(1)), ok)
 }
 
+/// Concurrent clients on one tracker at exhaustion: the tracker's own contract (never hand out more
+/// than the limit, everything back after the drops), observed by hook H1's shadow accounting, which is
+/// updated in the same call as the budget.
+fn tracker_stress(case: &mut Case, rng: &mut jxlgen::rng::Rng) {
+    let threads = rng.urange(2, 8);
+    let limit = *rng.pick(&[1usize, 64, 1000, 4096, 100_000]);
+    let tracker = AllocTracker::with_limit(limit);
+    let iters = 20_000usize;
+    let granted = std::sync::Arc::new(std::sync::atomic::AtomicUsize::new(0));
+    let mut hs = Vec::new();
+    for t in 0..threads {
+        let tracker = tracker.clone();
+        let granted = granted.clone();
+        let mut r = jxlgen::rng::Rng::new(rng.next_u64() ^ t as u64);
+        hs.push(std::thread::spawn(move || {
+            let mut held = Vec::new();
+            for _ in 0..iters {
+                let sz = match r.below(4) {
+                    0 => r.below(limit as u64 / 4 + 2) as usize,
+                    1 => limit,
+                    2 => limit + 1 + r.below(1000) as usize,
+                    _ => r.below(limit as u64 + 1) as usize,
+                };
+                if let Ok(h) = tracker.alloc::<u8>(sz) {
+                    granted.fetch_add(1, std::sync::atomic::Ordering::Relaxed);
+                    held.push(h);
+                }
+                if held.len() > 3 || r.bool() {
+                    if !held.is_empty() {
+                        let i = r.below(held.len() as u64) as usize;
+                        held.swap_remove(i);
+                    }
+                }
+            }
+        }));
+    }
+    for h in hs {
+        let _ = h.join();
+    }
+    case.obs("stress_alloc_calls", tracker.verif_alloc_count() as u64);
+    case.obs("stress_granted", granted.load(std::sync::atomic::Ordering::Relaxed) as u64);
+    case.obs("stress_refused", tracker.verif_refused() as u64);
+    if tracker.verif_limit_violations() != 0 {
+        case.violation("limit-exceeded-concurrent", format!("{threads} threads on one tracker with limit {limit}: tracked total exceeded the limit {} time(s)", tracker.verif_limit_violations()));
+        return;
+    }
+    if tracker.verif_outstanding() != 0 || tracker.verif_bytes_left() != limit {
+        case.violation("budget-not-restored-concurrent", format!("after all handles were dropped: outstanding {} bytes_left {} limit {limit}", tracker.verif_outstanding(), tracker.verif_bytes_left()));
+        return;
+    }
+    case.sig(format!("tracker-stress|t{threads}|l{limit}"), true);
+}
+
+/// Single-fault enumeration: exactly the k-th tracked allocation of read+render is refused (what a
+/// budget does that is too small for one large request but not for the smaller ones after it), for
+/// every k. The call may fail; if it returns Ok its samples must be those of the unlimited decode.
+fn single_fault_enumeration(case: &mut Case, rng: &mut jxlgen::rng::Rng) {
+    let opts = jxlgen::imggen::ImgOpts { size_class: *rng.pick(&[2u32, 3, 3]), max_dim: 420, max_extra: 1, group_size_shift: Some(0), ..Default::default() };
+    let mut img = None;
+    for _ in 0..20 {
+        if let Some(i) = jxlgen::imggen::gen_modular_image(rng, &opts) {
+            img = Some(i);
+            break;
+        }
+    }
+    let Some(img) = img else {
+        case.inconclusive("generator gave up");
+        return;
+    };
+    case.set_input(&img.bytes);
+    let decode = |tracker: &AllocTracker| -> Result<Vec<Vec<u32>>, String> {
+        let image = JxlImage::builder().pool(make_pool(Pool::None)).alloc_tracker(tracker.clone()).read(std::io::Cursor::new(&img.bytes[..])).map_err(|e| format!("read: {e}"))?;
+        let r = image.render_frame(0).map_err(|e| format!("render: {e}"))?;
+        Ok(r.image_planar().iter().map(|fb| fb.buf().iter().map(|v| v.to_bits()).collect()).collect())
+    };
+    let t0 = AllocTracker::with_limit(1 << 40);
+    let reference = match decode(&t0) {
+        Ok(p) => p,
+        Err(e) => {
+            case.violation("valid-image-rejected", format!("{e} [{} | {}]", img.desc, img.enc_desc));
+            return;
+        }
+    };
+    let n = t0.verif_alloc_count();
+    let stride = (n / 300).max(1);
+    let (mut failed, mut ok_same) = (0u64, 0u64);
+    let mut k = rng.below(stride as u64) as usize;
+    while k < n {
+        let t = AllocTracker::with_limit(1 << 40);
+        t.verif_set_fail_only(k);
+        match decode(&t) {
+            Err(_) => failed += 1,
+            Ok(p) => {
+                if p != reference {
+                    case.violation(
+                        "single-fault-wrong-output",
+                        format!("allocation {k} of {n} refused (only that one): read+render_frame returned Ok but the samples differ from the unlimited decode [{} | {}]", img.desc, img.enc_desc),
+                    );
+                    return;
+                }
+                ok_same += 1;
+            }
+        }
+        if t.verif_outstanding() != 0 {
+            case.violation("leak", format!("single fault at allocation {k}: {} tracked bytes outstanding after dropping everything", t.verif_outstanding()));
+            return;
+        }
+        k += stride;
+    }
+    case.obs("single_fault_points", failed + ok_same);
+    case.obs("single_fault_call_failed", failed);
+    case.obs("single_fault_ok_same_output", ok_same);
+    let multi = img.fh.num_groups() > 1;
+    case.sig(format!("single-fault|{}|n{}", if multi { "multigroup" } else { "1group" }, (n as f64).log2() as u32), n > 0);
+}
+
 pub fn run(args: &Args) -> i32 {
     run_cases(args, 0xC13, |case| {
         let mut rng = case.rng.fork();
+        if rng.chance(1, 25) {
+            tracker_stress(case, &mut rng);
+            return;
+        }
+        if rng.chance(1, 16) {
+            single_fault_enumeration(case, &mut rng);
+            return;
+        }
         let chain = if rng.chance(1, 20) { rng.urange(20, 120) } else { rng.urange(1, 4) };
         let pool = if rng.chance(1, 4) { Pool::Rayon(3) } else { Pool::None };
         // limit class
@@ -129,7 +291,16 @@ pub fn run(args: &Args) -> i32 {
                     let _ = tracker.shrink_limit(rng.below(1 << 12) as usize);
                 }
             }
-            let (o, ok) = run_image(&mut rng, &bytes, &tracker, pool);
+            let mut swallowed = None;
+            let mut tolerated = 0u64;
+            let (o, ok) = run_image(&mut rng, &bytes, &tracker, pool, &mut swallowed, &mut tolerated);
+            case.obs("calls_ok_despite_refusal_checked", tolerated);
+            if let Some(d) = swallowed {
+                case.set_input(&bytes);
+                case.violation("refusal-swallowed-wrong-output", format!("{d} (limit class {lclass}, limit now {})", tracker.verif_limit_total()));
+                return;
+            }
+            case.obs("refusals_seen", tracker.verif_refused() as u64);
             outcomes.insert(o);
             total_ok += ok;
             // quiescence: everything dropped (rayon background renders may still hold handles
